@@ -97,28 +97,39 @@ func (p *HTTPProxy) ServeHTTP(w http.ResponseWriter, r *http.Request) {
 	span := trace.CreateSpan(r, &p.TracerCfg)
 	defer span.Finish()
 
+	timeNow := p.Time
+	if timeNow == nil {
+		timeNow = time.Now
+	}
+
 	t := p.Lookup(r)
 
 	if t == nil {
-		status := p.Config.NoRouteStatus
-		if status < 100 || status > 999 {
-			status = http.StatusNotFound
-		}
-		w.WriteHeader(status)
-		html := noroute.GetHTML()
-		if html != "" {
-			io.WriteString(w, html)
-		}
+		p.answer(w, r, timeNow, "", func(w http.ResponseWriter) {
+			status := p.Config.NoRouteStatus
+			if status < 100 || status > 999 {
+				status = http.StatusNotFound
+			}
+			w.WriteHeader(status)
+			html := noroute.GetHTML()
+			if html != "" {
+				io.WriteString(w, html)
+			}
+		})
 		return
 	}
 
 	if t.AccessDeniedHTTP(r) {
-		http.Error(w, "access denied", http.StatusForbidden)
+		p.answer(w, r, timeNow, t.Service, func(w http.ResponseWriter) {
+			http.Error(w, "access denied", http.StatusForbidden)
+		})
 		return
 	}
 
 	if !t.Authorized(r, w, p.AuthSchemes) {
-		http.Error(w, "authorization failed", http.StatusUnauthorized)
+		p.answer(w, r, timeNow, t.Service, func(w http.ResponseWriter) {
+			http.Error(w, "authorization failed", http.StatusUnauthorized)
+		})
 		return
 	}
 
@@ -132,7 +143,9 @@ func (p *HTTPProxy) ServeHTTP(w http.ResponseWriter, r *http.Request) {
 	}
 
 	if t.RedirectCode != 0 && t.RedirectURL != nil {
-		http.Redirect(w, r, t.RedirectURL.String(), t.RedirectCode)
+		p.answer(w, r, timeNow, t.Service, func(w http.ResponseWriter) {
+			http.Redirect(w, r, t.RedirectURL.String(), t.RedirectCode)
+		})
 		if p.Stats.RedirectCounter != nil {
 			p.Stats.RedirectCounter.With("code", strconv.Itoa(t.RedirectCode)).Add(1)
 		}
@@ -235,11 +248,6 @@ func (p *HTTPProxy) ServeHTTP(w http.ResponseWriter, r *http.Request) {
 		h = gzip.NewGzipHandler(h, p.Config.GZIPContentTypes)
 	}
 
-	timeNow := p.Time
-	if timeNow == nil {
-		timeNow = time.Now
-	}
-
 	start := timeNow()
 	rw := &responseWriter{w: w}
 	h.ServeHTTP(rw, r)
@@ -284,6 +292,40 @@ func (p *HTTPProxy) ServeHTTP(w http.ResponseWriter, r *http.Request) {
 			UpstreamURL:     targetURL,
 		})
 	}
+}
+
+// answer lets fn write a response which fabio generates itself (no route,
+// access denied, authorization failed, redirect) and writes the access log
+// entry for it. Such an entry has no upstream address and no upstream URL.
+func (p *HTTPProxy) answer(w http.ResponseWriter, r *http.Request, timeNow func() time.Time, service string, fn func(http.ResponseWriter)) {
+	if p.Logger == nil {
+		fn(w)
+		return
+	}
+	requestURL := &url.URL{
+		Scheme:   scheme(r),
+		Host:     r.Host,
+		Path:     r.URL.Path,
+		RawQuery: r.URL.RawQuery,
+	}
+	start := timeNow()
+	rw := &responseWriter{w: w}
+	fn(rw)
+	end := timeNow()
+	if rw.code <= 0 {
+		return
+	}
+	p.Logger.Log(&logger.Event{
+		Start:   start,
+		End:     end,
+		Request: r,
+		Response: &http.Response{
+			StatusCode:    rw.code,
+			ContentLength: int64(rw.size),
+		},
+		RequestURL:      requestURL,
+		UpstreamService: service,
+	})
 }
 
 // rawPathAfter returns what follows the first n decoded bytes
